@@ -120,9 +120,9 @@ Proof.
     assert (Hstop : multiarch_stop (peek T) = true) by (now destruct (ctlhead_facts _ Hw)).
     rewrite (multiarch_word (arch_string a) [] _ Hm Hstop). cbn [app]. rewrite (arch_named_ok _ _ Hok), Hrt.
     replace (set_arch (with_name fresh (c0 :: n0)) a) with (base (c0 :: n0) (Some a)) by reflexivity.
-    apply Fin. lia.
+    rewrite Fin by lia. reflexivity.
   - cbn [qual_text app]. replace (with_name fresh (c0 :: n0)) with (base (c0 :: n0) None) by reflexivity.
-    apply Fin. lia.
+    rewrite Fin by lia. reflexivity.
 Qed.
 
 Theorem parse_err_first name q T :
